@@ -91,6 +91,7 @@ func (fr *Frame) eval(st *State, x ast.Expr) *Term {
 		}
 		return e.load(st, fr.evalLoc(st, x))
 	case *ast.SelectorExpr:
+		fr.elemPtrCheck(st, x)
 		if sel := fr.info.Selections[x]; sel != nil && sel.Kind() == types.MethodVal {
 			// a method value is an opaque non-nil function value (calling it is a call through a function value)
 			fr.evalIgnore(st, x.X)
@@ -586,6 +587,14 @@ func (fr *Frame) evalAddrOf(st *State, x *ast.UnaryExpr) *Term {
 		ref := e.alloc(st, t, "elem")
 		if isStructVal(t) {
 			e.storeObj(st, ref, t, v)
+			// remember which slice the pointer points into: a read through it after that slice changed would see the
+			// new contents of the slot in Go, not the copy (see elemPtrCheck)
+			if bl := fr.sliceLocOf(st, y.X); bl != nil {
+				if e.elemPtrs == nil {
+					e.elemPtrs = map[string]*elemPtr{}
+				}
+				e.elemPtrs[ref.Name] = &elemPtr{loc: bl, snap: e.load(st, bl), src: exprString(y)}
+			}
 			e.note("assumption: &slice[i] is modelled as a copy of the element (no function under contract writes through such a pointer)")
 			return ref
 		}
@@ -846,4 +855,54 @@ func (fr *Frame) funcValue(st *State, fn *types.Func) *Term {
 		st.Assume(Neq(v, IntLit(0)))
 	}
 	return v
+}
+
+type elemPtr struct {
+	loc  *Loc
+	snap *Term
+	src  string
+}
+
+// sliceLocOf: the location of a slice-typed expression when it is a variable or a field path (nil otherwise).
+func (fr *Frame) sliceLocOf(st *State, x ast.Expr) (l *Loc) {
+	defer func() {
+		if r := recover(); r != nil {
+			l = nil
+		}
+	}()
+	switch ast.Unparen(x).(type) {
+	case *ast.Ident, *ast.SelectorExpr:
+		return fr.evalLoc(st, x)
+	}
+	return nil
+}
+
+// elemPtrCheck: `p.f` where p was obtained as &s[i]: if s has changed since, the copy the engine reads from is not what
+// Go reads (the slot of the backing array): reported as a failed obligation instead of silently using the copy.
+func (fr *Frame) elemPtrCheck(st *State, x *ast.SelectorExpr) {
+	e := fr.e
+	if len(e.elemPtrs) == 0 {
+		return
+	}
+	id, ok := ast.Unparen(x.X).(*ast.Ident)
+	if !ok {
+		return
+	}
+	v, ok := fr.info.ObjectOf(id).(*types.Var)
+	if !ok {
+		return
+	}
+	cur, ok := st.vars[v]
+	if !ok || cur.Op != "var" {
+		return
+	}
+	ep := e.elemPtrs[cur.Name]
+	if ep == nil {
+		return
+	}
+	now := e.load(st, ep.loc)
+	if now == ep.snap || now.String() == ep.snap.String() {
+		return
+	}
+	e.oblige(fr, st, "slice-alias", "", fr.site("slice-alias", x), Eq(now, ep.snap), x, nil, "read through a pointer taken as &"+ep.src+" after the slice was modified")
 }
